@@ -419,6 +419,9 @@ func fileReadAux(L *LState, file *lFile, idx int) int {
 					L.ArgError(2, "invalid options:"+string(opt))
 				}
 			}
+		default:
+			// g_read: a format that is neither a number nor a string is an error, not the end of the formats
+			L.ArgError(i, "invalid option")
 		}
 	}
 normalreturn:
